@@ -5,6 +5,29 @@ PY_SUBSET = ('Python semantics of the executed subset as encoded by pyvc.symexec
              'sequences as len/at theories, path-by-path execution, loops cut at invariants)')
 
 PROPS = {
+    'C10': {
+        'level': 'proof',
+        'proof': [('contracts.statements_df', None)],
+        'bounded': [],
+        'assumptions': [PY_SUBSET],
+        'explanation': 'last-assignment lookup proved for all statement lists; dependency analyses bounded',
+    },
+    'C19': {
+        'level': 'proof',
+        'proof': [('contracts.criteria', None)],
+        'bounded': [],
+        'assumptions': [PY_SUBSET, FLOAT_AS_REAL],
+        'explanation': 'AIC/BIC formulas and the likelihood-ratio test functions proved against their '
+                       'definitions over abstract counts; ranking and tool statistics bounded',
+    },
+    'C05': {
+        'level': 'proof',
+        'proof': [('contracts.statements_cs', None)],
+        'bounded': [],
+        'assumptions': [PY_SUBSET],
+        'explanation': 'compartmental matrix entries and the shared compartment order of the vector accessors '
+                       'proved for all graphs; _order_compartments, eqs and to_compartmental_system bounded',
+    },
     'C15': {
         'level': 'proof',
         'proof': [('contracts.lock', None)],
